@@ -567,12 +567,13 @@ def prop_reported(case):
         raise Discard("fit would have no degrees of freedom")
     # domain check on the *input* before the fit (cheap, no expm)
     in_case = case if kind == "decay" else {**equivalent_general(kind, case["compartments"], case["rates"]), "times": times}
-    reference(in_case, need_profile=False)
+    ref_in = reference(in_case, need_profile=False)
+    uni_in = declared_unibranched(ref_in.comps, ref_in.entries)
     rng = np.random.default_rng(case["data_seed"])
     data = rng.uniform(0.1, 1.0, (nt, ns))
     ds = xr.DataArray(data, coords=[("time", times), ("spectral", np.arange(ns, dtype=float) + 500.0)]).to_dataset(name="data")
     scheme = Scheme(model, params, {"d1": ds}, maximum_number_function_evaluations=1)
-    with expect_ok("reported.optimize"), warnings.catch_warnings(), np.errstate(all="ignore"):
+    with expect_ok("reported.optimize" + ("_unibranched" if uni_in else "")), warnings.catch_warnings(), np.errstate(all="ignore"):
         warnings.simplefilter("ignore")
         res = optimize(scheme, verbose=False, raise_exception=True)
     out = res.data["d1"]
